@@ -529,7 +529,7 @@ def run(rep: Report, tier: str) -> None:
     format_round_trip(rep)
     straight_through(rep, rng, 200 if quick else 2000)
     graph_cases(rep, [rng.randrange(1 << 30) for _ in range(150 if quick else 2000)])
-    dynamo_cases(rep, rng, ["nearest", "srbits"] if quick else FORMAT_KINDS)
+    dynamo_cases(rep, rng, ["nearest", "srbits", "stochastic"] if quick else FORMAT_KINDS)
     rep.rule = "random FX graphs of depth 1-12 over the call styles of linear / attention (+ elementwise, norm, add, reshape), inputs of rank 2-4, one of 6 format pairs each; straight-through bit patterns for 6 formats; module family x formats through TorchDynamo; non-trivial = graphs with at least one quantisable op"
     rep.sample({"format_kinds": FORMAT_KINDS})
     rep.assumptions += ["FPFormat.quantise itself is covered by C13/C14; the reference Qf/Qb are harness-defined autograd functions around it", "random source pinned with torch.manual_seed; same call order of torch.randint in reference and transformed module"]
